@@ -5,7 +5,9 @@ package main
 
 import (
 	"encoding/binary"
+	"fmt"
 	"math"
+	"strings"
 
 	"github.com/pion/rtcp"
 )
@@ -200,7 +202,75 @@ var _ = rtcp.Header{}
 // genDecvOp: an RFC-valid encoding built by hand together with the field values the specification assigns
 // (`decv.K <hex> | <expected body tokens>`); judged by the C04 oracle, compared with the model as a plain dec.
 func genDecvOp(r *Rng) string {
-	switch r.Intn(5) {
+	switch r.Intn(7) {
+	case 5: // TWCC with one run-length chunk over the whole 13-bit range, built by hand
+		L := r.Pick(1, 2, 4095, 4096, 5000, 8190, 8191, 1+r.Intn(8191))
+		sym := r.Pick(0, 0, 1, 3)
+		t := &rtcp.TransportLayerCC{SenderSSRC: uint32(r.U64()), MediaSSRC: uint32(r.U64()), BaseSequenceNumber: uint16(r.U64()),
+			PacketStatusCount: uint16(L), ReferenceTime: uint32(r.Bits(24, 24)), FbPktCount: uint8(r.U64())}
+		t.PacketChunks = []rtcp.PacketStatusChunk{&rtcp.RunLengthChunk{Type: 0, PacketStatusSymbol: uint16(sym), RunLength: uint16(L)}}
+		b := hdrBytes(false, 15, 205, 0)
+		b = binary.BigEndian.AppendUint32(b, t.SenderSSRC)
+		b = binary.BigEndian.AppendUint32(b, t.MediaSSRC)
+		b = binary.BigEndian.AppendUint16(b, t.BaseSequenceNumber)
+		b = binary.BigEndian.AppendUint16(b, t.PacketStatusCount)
+		b = append(b, byte(t.ReferenceTime>>16), byte(t.ReferenceTime>>8), byte(t.ReferenceTime), t.FbPktCount)
+		b = binary.BigEndian.AppendUint16(b, uint16(sym)<<13|uint16(L))
+		if sym == 1 {
+			for i := 0; i < L; i++ {
+				d := byte(r.U64())
+				b = append(b, d)
+				t.RecvDeltas = append(t.RecvDeltas, &rtcp.RecvDelta{Type: 1, Delta: 250 * int64(d)})
+			}
+		}
+		if pad := (4 - len(b)%4) % 4; pad > 0 {
+			for i := 0; i < pad-1; i++ {
+				b = append(b, 0)
+			}
+			b = append(b, byte(pad))
+			b[0] |= 0x20
+		}
+		b = finish(b)
+		t.Header = rtcp.Header{Padding: b[0]&0x20 != 0, Count: 15, Type: 205, Length: binary.BigEndian.Uint16(b[2:])}
+		return "decv.TWCC " + hx(b) + " | " + bodyTokens(t)
+	case 6: // XR with header-only blocks (block length 0): an opaque block and an empty DLRR block, RFC 3611 §3
+		s := uint32(r.U64())
+		ntp := r.U64()
+		bt, ts := r.Pick(0, 8, 42, 200, 255), byte(r.U64())
+		b := hdrBytes(false, 0, 207, 0)
+		b = binary.BigEndian.AppendUint32(b, s)
+		toks := fmt.Sprintf("%d", s)
+		var blocks []string
+		order := r.Intn(3)
+		addRRT := func() {
+			b = append(b, 4, 0, 0, 2)
+			b = binary.BigEndian.AppendUint64(b, ntp)
+			blocks = append(blocks, fmt.Sprintf("4 4 0 2 0 1 %d 0", ntp))
+		}
+		addOpaque := func() {
+			b = append(b, byte(bt), ts, 0, 0)
+			blocks = append(blocks, fmt.Sprintf("0 %d %d 0 0 0 0", bt, ts))
+		}
+		addDLRR := func() {
+			b = append(b, 5, 0, 0, 0)
+			blocks = append(blocks, "5 5 0 0 0 0 0")
+		}
+		switch order {
+		case 0:
+			addRRT()
+			addOpaque()
+			addDLRR()
+		case 1:
+			addOpaque()
+			addRRT()
+			addDLRR()
+		default:
+			addDLRR()
+			addRRT()
+			addOpaque()
+		}
+		toks += fmt.Sprintf(" %d %s", len(blocks), strings.Join(blocks, " "))
+		return "decv.XR " + hx(finish(b)) + " | " + toks
 	case 0: // REMB with any mantissa/exponent pair: bitrate is exactly mantissa * 2^exp
 		exp, mant, nss := r.Intn(64), int(r.Bits(18, 18)), r.Len(3, 0)
 		if mant == 0 {
